@@ -509,6 +509,14 @@ def _defer_to_sf(cls, name):
     setattr(cls, name, op)
 
 
+_z3_arith_div = z3.ArithRef.__div__          # z3's own division (integer div on Int operands), before patching
+
+
+def int_floordiv(a, b):
+    """floor division of a symbolic Int by a positive python int"""
+    return _z3_arith_div(a, b)
+
+
 for _n in ("__add__", "__sub__", "__mul__", "__truediv__", "__div__", "__lt__", "__le__", "__gt__", "__ge__",
            "__radd__", "__rsub__", "__rmul__", "__rtruediv__"):
     _defer_to_sf(z3.ArithRef, _n)
